@@ -9,15 +9,24 @@ from ..rules.typed import c_prototypes, c_category
 ID = 'C33'
 TECHNIQUE = ('partial evaluation of the template-selecting methods of PyrexTypes.py over the finite key set of builtin_cpp_conversions / cpp_string_conversions '
              '(concrete strings and tables, identity-preserving unknowns), compared as sets with the sections, Tempita variables, element-type placeholders and '
-             '@cname names of CppConvert.pyx / CConvert.pyx; cdef-extern helper declarations compared with the C prototypes of the utility catalogue / CPython headers')
+             '@cname names of CppConvert.pyx / CConvert.pyx; cdef-extern helper declarations compared with the C prototypes of the utility catalogue / CPython headers; '
+             'DICT: abstract interpretation of the expanded dict -> struct/union converter over the complete partition of mappings (member keys present x other keys); '
+             'ENC: per preprocessor configuration path walk of the str -> char* encoder with an ASCII-witness typestate (guard dominance / count-equality exit)')
 DECIDES = ('(TAB) for every key of builtin_cpp_conversions and cpp_string_conversions, create_from_py_utility_code and create_to_py_utility_code load an existing '
            '<cls>.from_py / <cls>.to_py section of CppConvert.pyx, and the element-type placeholders the section uses (X, Y ...) are exactly the ones supplied for the '
            "table's template count; (CTX) at every CythonUtilityCode.load site for CppConvert.pyx / CConvert.pyx the Tempita variables read by the section are keys of the "
            'context passed, and the name the section defines (@cname("{{key}}")) is the value the type object stores as its conversion function; '
            '(STR) every name to_py_call_code can derive for a C++ string conversion (PyObject -> PyUnicode/PyBytes/PyByteArray) is defined by the string.to_py template; '
-           '(I7) every `__Pyx_` helper declared cdef extern in the two files exists with the same arity and return kind, and its except value is one the C helper returns on error.')
-NOT_DECIDED = ('element-wise round trip and error behaviour of the generated conversion functions (type checks, overflow, NUL bytes, encodings); '
-               'struct/union key handling of FromPyStructUtility beyond its variables; whether a required utility section is emitted before use (I8).')
+           '(I7) every `__Pyx_` helper declared cdef extern in the two files exists with the same arity and return kind, and its except value is one the C helper returns on error; '
+           '(DICT) for 1..3 members and every class of mapping (which member keys are present x whether other keys exist) FromPyUnionUtility returns exactly for one member '
+           'key and no other key and FromPyStructUtility exactly when all member keys are present, each field of `result` receives obj[<key of the same member>], and every '
+           'other class raises ValueError/TypeError/KeyError (never falls through, never another exception type); '
+           '(ENC) in every configuration (CPython / limited API old and new x c_string_encoding ascii / utf8) each non-NULL return of __Pyx_PyUnicode_AsStringAndSize returns a '
+           'UTF-8 buffer of the argument with *length stored on the path, a character count serves as byte length only under an ASCII witness, in the ascii configuration '
+           'the return is dominated by a positive PyUnicode_IS_ASCII guard or by the exit taken when character count != byte count, and '
+           '__Pyx_PyUnicode_FromStringAndSize decodes with the decoder of the same encoding flag.')
+NOT_DECIDED = ('element-wise round trip and error behaviour of the generated C++ container conversion functions (type checks, overflow, NUL bytes); value conversion of the individual struct/union fields; '
+               'that a utf8 configuration never rejects non-ASCII text; whether a required utility section is emitted before use (I8).')
 ASSUMPTIONS = ['a C++ string type has no template parameters (the only execution of the selection methods that does not raise KeyError)',
                'CPython C-API functions returning int/Py_ssize_t signal errors with -1, pointer-returning ones with NULL']
 
@@ -52,7 +61,22 @@ MUTATIONS = [
     ('Cython/Compiler/PyrexTypes.py', "CppClassType.create_to_py_utility_code: prefix = 'PyObject_' -> 'Object_'", 'C33-STR'),
     ('Cython/Utility/CppConvert.pyx', 'string.from_py: declare `cdef int __Pyx_PyObject_AsStringAndSize(...) except -1`', 'C33-I7'),
     ('Cython/Compiler/PyrexTypes.py', 'CStructOrUnionType: "FromPyUnionUtility" -> "FromPyUnionUtil"', 'C33-CTX'),
+    ('Cython/Utility/CConvert.pyx', 'seed C33b: FromPyUnionUtility final `else:` -> `elif repeated_key is not None:`', 'C33-DICT CConvert.pyx:FromPyUnionUtility:extra-keys'),
+    ('Cython/Utility/CConvert.pyx', 'FromPyUnionUtility: `if not length: return result` -> `if length: return result`', 'C33-DICT :member-keys + :extra-keys'),
+    ('Cython/Utility/CConvert.pyx', 'FromPyUnionUtility: drop `length -= 1`', 'C33-DICT :member-keys (valid mapping raises)'),
+    ('Cython/Utility/CConvert.pyx', 'FromPyStructUtility: `except KeyError: lookup_failed = True` -> False', 'C33-DICT FromPyStructUtility:member-keys (UnboundLocalError)'),
+    ('Cython/Utility/CConvert.pyx', 'FromPyStructUtility: `if lookup_failed: raise ValueError` -> `return result`', 'C33-DICT FromPyStructUtility:member-keys'),
+    ('Cython/Utility/TypeConversion.c', 'seed C33a: PyUnicode_IS_ASCII(o) -> __Pyx_PyUnicode_KIND(o) == PyUnicode_1BYTE_KIND', 'C33-ENC ...AsStringAndSize:ascii:ascii + :length'),
+    ('Cython/Utility/TypeConversion.c', 'limited API post-check `unicode_length != *length` -> `unicode_length > *length`', 'C33-ENC :ascii:ascii (both limited configurations)'),
+    ('Cython/Utility/TypeConversion.c', 'drop `*length = PyUnicode_GET_LENGTH(o);`', 'C33-ENC :ascii:length'),
+    ('Cython/Utility/TypeConversion.c', '`if (likely(PyUnicode_IS_ASCII(o)))` -> `if (unlikely(!PyUnicode_IS_ASCII(o)))` (branches keep their bodies)', 'C33-ENC :ascii:ascii'),
+    ('Cython/Utility/TypeConversion.c', 'inner `#if __PYX_DEFAULT_STRING_ENCODING_IS_ASCII` -> `..._IS_UTF8`', 'C33-ENC :ascii:ascii'),
+    ('Cython/Utility/TypeConversion.c', '__Pyx_PyUnicode_FromStringAndSize ascii arm: PyUnicode_DecodeASCII -> PyUnicode_DecodeUTF8', 'C33-ENC ...FromStringAndSize:ascii'),
     # behaviour-preserving, must stay silent
+    ('Cython/Utility/CConvert.pyx', 'union: drop `length = 0` after a repeated key / swap the two final messages (`is None` <-> `is not None`: both arms raise ValueError) / final arm `elif repeated_key is not None or length or True:`; '
+                                    'struct: try/except replaced by a per-member `if name not in obj: raise ValueError`', None),
+    ('Cython/Utility/TypeConversion.c', 'ascii branch as early `if (!PyUnicode_IS_ASCII(o)) {...return NULL;}` + fall-through return; `return PyUnicode_AsUTF8AndSize(o, length)` in the ascii branch; '
+                                        'limited API: `Py_ssize_t nchars = ...; if (likely(*length == nchars)) return result; ...; return NULL;` with #else return', None),
     ('Cython/Compiler/PyrexTypes.py', 'reorder rows of builtin_cpp_conversions; rename local `cls` to `klass` in both methods; build context with dict(...) instead of update', None),
     ('Cython/Utility/CppConvert.pyx', 'reverse the order of all sections; rename local `v` to `vec` in vector.from_py; add a comment', None),
     ('Cython/Utility/CConvert.pyx', 'carray.to_py: re-space the __Pyx_PyTuple_SET_ITEM declaration and add a trailing comment', None),
@@ -433,4 +457,8 @@ def run(ctx):
 
     rules.append(rule_str(ctx, it, keyed))
     rules.append(rule_i7(ctx))
+    from ..rules import sC33
+    rules.append(sC33.rule_dict(ctx))
+    rules.append(sC33.rule_enc(ctx))
+    # sC33.rule_dict_fields(ctx)   # pending finding (FromPyUnionUtility assigns result.{{member.cname}}, see sa/rules/sC33.py)
     return rules
